@@ -30,9 +30,12 @@
   `Gen.cUncovered` (at present: the `_test_*` helpers only); no theorem speaks about them.
   The reader REFUSES a function (it becomes not followed, `uncovered_only_tests` fails) rather
   than guess: a node or a handle passed to a local name (an alias), to a computed callee or
-  (raw node) to something neither declared nor defined in the module; `incref`/`decref` on a
-  value it cannot identify; an update or a test of `_ref` of another shape than `h._ref += k`,
-  `h._ref = k`, `h._ref <rel> k`.  `allFunctionsSeen` ties the number of definition keywords of
+  (raw node, or a handle made in the function) to something neither declared nor defined in the
+  module; `incref`/`decref` on a value it cannot identify; an update or a test of `_ref` of another
+  shape than `h._ref += k`, `h._ref = k`, `h._ref <rel> k`; node events inside a conditional
+  expression or under `and`/`or` (as a statement these are followed both ways); a loop that stores
+  into a constant slot of a C array.  Code outside the functions must not mention a reference-count
+  function at all (`noModuleLevelRefCode`).  `allFunctionsSeen` ties the number of definition keywords of
   each file to the functions the reader found.
 -/
 import DD.Doc
@@ -86,7 +89,7 @@ def cTableSound (t : CApplyTable) : Bool := t.rows.all cRowSound
 assumed meaning of the C functions (`DD/CWrap.lean`), to the documented connective of the
 spelling (`DD/Doc.lean`, the same reference `Gen.applyTable` of `dd.bdd` is proved against)
 for all 8 operand valuations.  Source level only; see the header for what is trusted. -/
-theorem cApply_sound : Gen.cApply.all cTableSound = true := by decide
+theorem cApply_sound : Gen.cApply.all cTableSound = true := by decide +kernel
 
 /-- `cApply_sound` spelled out for the propositional connectives: for every back end `t`, every
 row `r` of its `apply` table whose branch returns the C expression `e`, and every operand
@@ -113,13 +116,13 @@ theorem cApply_sound_forall :
 and `ite` of the managers, where a back end defines them, compute the connective of the
 corresponding `apply` spelling (same evaluator, same trusted tables) -/
 theorem cOperators_sound : (Gen.cOperators.all fun x => x.2.2.accepted && cRowSound x.2.2) = true := by
-  decide
+  decide +kernel
 
 /-- all four back ends are present and each table lists the whole `dd._abc` vocabulary -/
 theorem cApply_complete :
     Gen.cApply.map (·.backend) = [.cudd, .cuddZdd, .sylvan, .buddy] ∧
     (Gen.cApply.all fun t => Gen.allOps.all fun o => t.rows.any fun r => r.alias == o) = true := by
-  decide
+  decide +kernel
 
 /-! ### operand roles of the quantifier spellings -/
 
@@ -141,7 +144,7 @@ def refRoles (al : String) : Option (Bool × COperand × COperand) :=
 the support of the FIRST -/
 theorem refRoles_eq :
     refRoles "\\A" = some (true, .u, .v) ∧ refRoles "forall" = some (true, .u, .v) ∧
-    refRoles "\\E" = some (false, .u, .v) ∧ refRoles "exists" = some (false, .u, .v) := by decide
+    refRoles "\\E" = some (false, .u, .v) ∧ refRoles "exists" = some (false, .u, .v) := by decide +kernel
 
 def cRowRoles (r : CRow) : Option (Bool × COperand × COperand) :=
   match r.outcome with
@@ -174,15 +177,15 @@ theorem cQuant_roles_sylvan :
     (rowOf .sylvan "\\A").bind cRowRoles = some (true, .u, .v) ∧
     (rowOf .sylvan "forall").bind cRowRoles = some (true, .u, .v) ∧
     (rowOf .sylvan "\\E").bind cRowRoles = some (false, .u, .v) ∧
-    (rowOf .sylvan "exists").bind cRowRoles = some (false, .u, .v) := by decide
+    (rowOf .sylvan "exists").bind cRowRoles = some (false, .u, .v) := by decide +kernel
 
 /-- **C19 (operand roles)**: the full statement holds on the current source, for every back end -/
 theorem cQuant_roles : cQuant_roles_statement := by
-  unfold cQuant_roles_statement; decide
+  unfold cQuant_roles_statement; decide +kernel
 
 /-- the same without the Sylvan entry (kept: it was the proved part while F6 was open) -/
 theorem cQuant_roles_partial :
-    (Gen.cApply.all fun t => t.backend == .sylvan || cQuantOk t) = true := by decide
+    (Gen.cApply.all fun t => t.backend == .sylvan || cQuantOk t) = true := by decide +kernel
 
 /-- how the variable-supplying operand is used (data, not an obligation): `cudd.pyx` passes
 `u.node` itself as the cube (CUDD returns NULL unless it is a positive cube), `cudd_zdd.pyx`
@@ -194,7 +197,7 @@ def cQuantMode (b : Backend) (al : String) : Option VarsMode :=
 
 theorem cQuant_modes :
     cQuantMode .cudd "\\A" = some .cubeArg ∧ cQuantMode .cuddZdd "\\A" = some .supportOf ∧
-    cQuantMode .sylvan "\\A" = some .cubeArg ∧ cQuantMode .buddy "\\A" = none := by decide
+    cQuantMode .sylvan "\\A" = some .cubeArg ∧ cQuantMode .buddy "\\A" = none := by decide +kernel
 
 /-- the variables that an accepted quantifier branch abstracts, when the first operand `u` is the
 positive cube of the list `S` and `L` lists the support of `u`.  ASSUMED meaning of the C calls in
@@ -232,7 +235,7 @@ theorem cQuant_meaning_cube :
     ∀ (mode : VarsMode) (fa : Bool) (S L : List Nat) (v : CQuant.BFun),
       (∀ x, x ∈ L ↔ CQuant.DependsOn (CQuant.cubeOf S) x) →
       CQuant.quantL fa (quantVars mode S L) v = CQuant.quantL fa L v := by
-  refine ⟨by decide, ?_⟩
+  refine ⟨by decide +kernel, ?_⟩
   intro mode fa S L v hL
   cases mode
   · exact CQuant.quant_cube_eq_support fa S L v hL
@@ -247,7 +250,7 @@ example : (∀ x, x ∈ [2, 0, 2] ↔ CQuant.DependsOn (CQuant.cubeOf [0, 2]) x)
   omega
 example : CQuant.quantL false (quantVars .cubeArg [0, 2] [2, 0, 2]) (fun a => a 0 != a 1) (fun _ => false) = true ∧
     CQuant.quantL true (quantVars .supportOf [0, 2] [2, 0, 2]) (fun a => a 0 != a 1) (fun _ => false) = false := by
-  decide
+  decide +kernel
 
 /-- the reader's own table of quantifier signatures (`cpyx.QUANT_SIG`, used by the Python
 oracle) and the one of `DD/CWrap.lean` give the same roles on every accepted quantifier row -/
@@ -292,7 +295,7 @@ def cVocabOk (t : CApplyTable) : Bool :=
 (the `dd._abc` vocabulary through `_utils.assert_operator_arity` for CUDD, CUDD-ZDD and
 Sylvan; the module's own `Literal[...]` for BuDDy), all of it inside `dd._abc`'s vocabulary.
 A smaller vocabulary (BuDDy) is data (`cMissing`), not a failure. -/
-theorem cVocab : Gen.cApply.all cVocabOk = true := by decide
+theorem cVocab : Gen.cApply.all cVocabOk = true := by decide +kernel
 
 /-- the Python-side views emitted next to the tables (`Gen.cAcceptedPy`, `Gen.cQuantRolesPy`)
 agree with what is derived here from the expression trees -/
@@ -300,11 +303,11 @@ theorem cTables_consistent :
     cRolesConsistent = true ∧
     (Gen.cApply.all fun t =>
       (Gen.cAcceptedPy.find? (·.1 == t.backend)).map (·.2) == some (acceptedOps t)) = true := by
-  decide
+  decide +kernel
 
 /-- the three full back ends reject nothing of the vocabulary -/
 theorem cVocab_full :
-    (Gen.cApply.all fun t => !t.declaredViaAbc || (cMissing t).isEmpty) = true := by decide
+    (Gen.cApply.all fun t => !t.declaredViaAbc || (cMissing t).isEmpty) = true := by decide +kernel
 
 /-! ### reference discipline -/
 
@@ -378,7 +381,7 @@ change of `_ref` equals the library references taken minus those given back (INV
 library references the handle owns); the counter is decremented only where the path conditions
 make it positive; `__dealloc__` keeps everything only where they make it 0.  The one exception is
 spelled out in `fieldPathOk`: `decref(u, _direct=True)`. -/
-theorem refField_backends : Gen.cRefFieldBackends = [.cudd, .cuddZdd] := by decide
+theorem refField_backends : Gen.cRefFieldBackends = [.cudd, .cuddZdd] := by decide +kernel
 
 /-- every definition keyword of the four files is accounted for: the number of logical lines
 that begin a definition (`def`, `cpdef`, `async def`, `cdef … (` — counted from the keyword alone)
@@ -444,7 +447,7 @@ def leakEntryKnown (x : Backend × String × String × List (String × Int)) : B
 
 /-- every exit that still owns something is a reviewed one -/
 theorem exitLeaks_all_known : exitLeaksLean.all leakEntryKnown = true := by
-  rw [exitLeaks_twins_agree]; decide
+  rw [exitLeaks_twins_agree]; decide +kernel
 
 /-- **C19 (references, exceptional exits).**  Every call in a followed function that may raise a
 Python exception — anything but a C function (declared `extern` / in the `.pxd` / cimported from
@@ -502,7 +505,7 @@ theorem refTraces_exceptionSafe :
 repaired this fails until the entry is removed) -/
 theorem exceptionLeaks_present :
     (knownExceptionLeaks.all fun k => exitLeaksLean.contains (k.backend, k.fn, k.site, k.held)) = true := by
-  rw [exitLeaks_twins_agree]; decide
+  rw [exitLeaks_twins_agree]; decide +kernel
 
 /-- none of the reviewed exits can be reached by a caller with a wrong argument: what is left needs a
 broken internal invariant or a `MemoryError`.  (The one that could — `_c_compose` of cudd_zdd.pyx at
@@ -512,7 +515,7 @@ not NULL; on the source before the repair `refTraces_exceptionSafe` and `refTrac
 fail for `_c_compose`.) -/
 theorem exceptionLeaks_reachable :
     (knownExceptionLeaks.filter (·.reach == .userError)).map (fun k => (k.backend, k.fn, k.site)) = [] := by
-  decide
+  decide +kernel
 
 /-- the exits are there: several hundred exceptional paths, and the functions whose discipline hinges
 on a `try … finally` have exits INSIDE the `try` that run the `finally` (`free` after `raiseIn` is
@@ -564,6 +567,45 @@ theorem refTraces_arraysFreed :
       knownArrayLeaks.any fun k => k.1 == m.backend && k.2.1 == m.name && endsInRaiseOf k.2.2 p.events) = true := by
   decide +kernel
 
+/-- **C19 (the right dereference).**  Every dereference in a followed function — of a node, of every
+element of a container — uses a function of the method's back end (`allowedDerefs`: never
+`Cudd_RecursiveDeref` on the nodes of `dd.cudd_zdd`, never `Cudd_RecursiveDerefZdd` in `dd.cudd`), and
+`Function.__dealloc__` gives the reference of the handle back with the function that RECLAIMS the
+node and releases its children (`disposalDerefs`: `Cudd_RecursiveDeref` / `Cudd_IterDerefBdd`,
+`Cudd_RecursiveDerefZdd`, `sylvan_deref`, `bdd_delref`), not with `Cudd_Deref` / `cuddDeref`, which only
+decrement.  (`decref(u, recursive=False)` of the CUDD wrappers offers the non-recursive function on
+purpose; it is the caller's choice.) -/
+theorem refTraces_derefKinds : (Gen.cRefTraces.all derefKindsOk) = true := by decide +kernel
+
+/-- a node whose last reference is given back with CUDD's NON-recursive dereference is handed on
+alive afterwards (returned, wrapped, stored) — it is never dropped, which would leave it and the
+references it holds on its children unreclaimed — except in the functions of `reviewedPlainDrops` -/
+theorem refTraces_noPlainDrop :
+    (Gen.cRefTraces.all fun m => m.role != .plain || m.paths.all fun p =>
+      !pathPlainDrop (localsOf m.backend) m p ||
+      reviewedPlainDrops.any fun k => k.1 == m.backend && k.2.1 == m.name &&
+        (k.2.2 == "" || k.2.2 == endLabel p.events)) = true := by decide +kernel
+
+/-- no code outside the functions (module level, class level; `extern` blocks aside) mentions a
+reference-count function or method: `_bump = BDD.incref`, `_leak = lambda u: Cudd_Ref(u.node)` would be
+reached through names the reader does not follow (a handle made in a function and passed to such a
+name makes that function NOT followed) -/
+theorem noModuleLevelRefCode : Gen.cModuleLevelRefs = [] := by decide +kernel
+
+/-- the named assumption `directDecrefHandsOver` (`assumeDirectDecref`, DD/CWrap.lean): the callers of
+`decref(u, _direct=True)` in the package are in `dd/_copy.py` only (regenerated by a search of
+`dd/*.py`, `dd/*.pyx` for `_direct=True`) -/
+theorem directDecref_users :
+    (Gen.cDirectDecrefUsers.all fun x => x.1 == "dd/_copy.py") = true ∧ Gen.cDirectDecrefUsers ≠ [] := by decide +kernel
+
+/-- … and it is the ONLY thing the assumption is used for: without it exactly the two `decref`
+methods of the CUDD wrappers fail, everything else is unchanged -/
+theorem directDecref_only_exception :
+    ((Gen.cRefTraces.filter fun m =>
+        (m.role == .refDec || m.role == .refInc || m.role == .handleInit || m.role == .handleDealloc) &&
+        !fieldMethodOkA false (Gen.cRefFieldBackends.contains m.backend) m).map fun m => (m.backend, m.name))
+      = [(.cudd, "BDD.decref"), (.cuddZdd, "ZDD.decref")] := by decide +kernel
+
 /-- the paths that are skipped because they assume `x.ref <= 0` for a node on which a reference
 is held, and that would otherwise end holding a reference, all belong to the three functions of
 the ZDD composition (an observation about the source: `reviewedDeadAssertions`) -/
@@ -574,12 +616,12 @@ theorem deadAssertions_where :
 /-- the functions that are NOT followed by the reader (`Gen.cUncovered`, test helpers aside) are
 exactly those reviewed by hand, with the text they had when reviewed (DD/CWrapReviewed.lean).
 At present there is none: the seven functions that keep references in containers are followed. -/
-theorem uncovered_reviewed : Gen.cUncoveredText = reviewedUncovered := by decide
+theorem uncovered_reviewed : Gen.cUncoveredText = reviewedUncovered := by decide +kernel
 
 /-- what is left out is the `_test_*` helpers (the reader marks them by this reason, from their name) -/
 theorem uncovered_only_tests :
     (Gen.cUncovered.all fun u => u.reason == "test helper (not part of the wrapper API)") = true := by
-  decide
+  decide +kernel
 
 /-- each function that memoizes in CUDD's computed table uses ONE tag, the same for its lookups
 and its inserts, and no two functions share a tag (a shared tag makes one operator return what the
@@ -591,11 +633,11 @@ def cacheTagsOk (l : List (Backend × String × List String × List String)) : B
     | t :: ts => ts.all (· == t) && !x.2.2.1.isEmpty && !x.2.2.2.isEmpty) &&
   (l.map fun x => (x.1, (x.2.2.1 ++ x.2.2.2).head?)).Nodup
 
-theorem cacheTags_distinct : cacheTagsOk Gen.cCacheTags = true := by decide
+theorem cacheTags_distinct : cacheTagsOk Gen.cCacheTags = true := by decide +kernel
 
 /-- the check has teeth: `_forall` inserting under the tag of `_exist` is refused -/
 example : cacheTagsOk [(.cuddZdd, "_forall", ["_exist_cache_id"], ["_exist_cache_id"]),
-    (.cuddZdd, "_exist", ["_exist_cache_id"], ["_exist_cache_id"])] = false := by decide
+    (.cuddZdd, "_exist", ["_exist_cache_id"], ["_exist_cache_id"])] = false := by decide +kernel
 
 def hasMethod (b : Backend) (name : String) (role : CRole) : Bool :=
   Gen.cRefTraces.any fun m => m.backend == b && m.name == name && m.role == role
@@ -610,7 +652,7 @@ theorem refTraces_core_covered :
       hasMethod .buddy "Function.__dealloc__" .handleDealloc) = true ∧
     (hasMethod .cudd "BDD.apply" .plain && hasMethod .cuddZdd "ZDD.apply" .plain &&
       hasMethod .sylvan "BDD.apply" .plain && hasMethod .buddy "BDD.apply" .plain) = true := by
-  decide
+  decide +kernel
 
 def methodHas (b : Backend) (name : String) (f : CEv → Bool) : Bool :=
   Gen.cRefTraces.any fun m => m.backend == b && m.name == name && m.role == .plain &&
@@ -631,29 +673,29 @@ theorem refTraces_containers_covered :
      methodHas .cuddZdd "cuddHashTableQuitZdd" (fun e => match e with | .derefAll .. => true | _ => false) &&
      methodHas .cuddZdd "_support" (fun e => match e with | .setField .. => true | _ => false) &&
      methodHas .cuddZdd "_clear_markers" (fun e => match e with | .setField .. => true | _ => false)) = true := by
-  decide
+  decide +kernel
 
 /-! ### non-vacuity -/
 
 -- the evaluator distinguishes connectives: a swapped branch would be caught
-example : cRowSound ⟨"and", .ret (.c2 "Cudd_bddOr" (.arg .u) (.arg .v)), 0⟩ = false := by decide
+example : cRowSound ⟨"and", .ret (.c2 "Cudd_bddOr" (.arg .u) (.arg .v)), 0⟩ = false := by decide +kernel
 example : cRowSound ⟨"=>", .ret (.c3 "Cudd_bddIte" (.arg .v) (.arg .u) (.c0 "Cudd_ReadOne")), 0⟩ = false := by
-  decide
-example : cRowSound ⟨"and", .ret (.c2 "Cudd_bddAnd" (.arg .u) (.arg .v)), 0⟩ = true := by decide
-example : cRowSound ⟨"and", .unknown "r = f(x)", 0⟩ = false := by decide
-example : cRowSound ⟨"and", .ret (.c2 "Cudd_unknownFn" (.arg .u) (.arg .v)), 0⟩ = false := by decide
+  decide +kernel
+example : cRowSound ⟨"and", .ret (.c2 "Cudd_bddAnd" (.arg .u) (.arg .v)), 0⟩ = true := by decide +kernel
+example : cRowSound ⟨"and", .unknown "r = f(x)", 0⟩ = false := by decide +kernel
+example : cRowSound ⟨"and", .ret (.c2 "Cudd_unknownFn" (.arg .u) (.arg .v)), 0⟩ = false := by decide +kernel
 -- tables are not empty
-example : (Gen.cApply.map fun t => (acceptedOps t).length) = [27, 27, 27, 9] := by decide
+example : (Gen.cApply.map fun t => (acceptedOps t).length) = [27, 27, 27, 9] := by decide +kernel
 -- a dropped dereference, a double dereference and a leaked temporary reference are caught
-example : runPath [] false false [] [.produce 0 "Cudd_bddAnd" [], .ref 0 "Cudd_Ref", .retHandle] ≠ .ok := by decide
+example : runPath [] false false [] [.produce 0 "Cudd_bddAnd" [], .ref 0 "Cudd_Ref", .retHandle] ≠ .ok := by decide +kernel
 example : runPath [] false false []
-    [.produce 0 "Cudd_bddAnd" [], .wrap 0, .deref 0 "Cudd_RecursiveDeref", .retHandle] ≠ .ok := by decide
+    [.produce 0 "Cudd_bddAnd" [], .wrap 0, .deref 0 "Cudd_RecursiveDeref", .retHandle] ≠ .ok := by decide +kernel
 example : runPath [] false false []
-    [.produce 0 "Dddmp_cuddBddLoad" [], .wrap 0, .retHandle] ≠ .ok := by decide
+    [.produce 0 "Dddmp_cuddBddLoad" [], .wrap 0, .retHandle] ≠ .ok := by decide +kernel
 example : runPath [] false false []
-    [.produce 0 "Dddmp_cuddBddLoad" [], .wrap 0, .deref 0 "Cudd_RecursiveDeref", .retHandle] = .ok := by decide
+    [.produce 0 "Dddmp_cuddBddLoad" [], .wrap 0, .deref 0 "Cudd_RecursiveDeref", .retHandle] = .ok := by decide +kernel
 example : runPath [] true false []
-    [.produce 0 "Cudd_bddAnd" [], .produce 1 "Cudd_bddOr" [], .wrap 0, .retHandle] ≠ .ok := by decide
+    [.produce 0 "Cudd_bddAnd" [], .produce 1 "Cudd_bddOr" [], .wrap 0, .retHandle] ≠ .ok := by decide +kernel
 example : (Gen.cRefTraces.length ≥ 100) = true := by decide +kernel
 
 /-! #### the counter of a handle -/
@@ -661,39 +703,39 @@ example : (Gen.cRefTraces.length ≥ 100) = true := by decide +kernel
 -- `decref` as written: guard, decrement, one reference back
 example : fieldPathOk .refDec
     [.guard "_direct" false, .fieldTest "u" "<=" 0 false, .fieldAdd "u" (-1), .param 0 "u.node",
-     .handleNode 0 "u", .deref 0 "_decref", .fieldTest "u" "==" 0 true, .retHandle] = true := by decide
+     .handleNode 0 "u", .deref 0 "_decref", .fieldTest "u" "==" 0 true, .retHandle] = true := by decide +kernel
 -- seeded C19h: `u._ref -= 1` deleted — the library reference goes, the counter stays; `__dealloc__`
 -- will give the reference back a second time
 example : fieldPathOk .refDec
     [.guard "_direct" false, .fieldTest "u" "<=" 0 false, .param 0 "u.node", .handleNode 0 "u",
-     .deref 0 "_decref", .fieldTest "u" "==" 0 false, .retHandle] = false := by decide
+     .deref 0 "_decref", .fieldTest "u" "==" 0 false, .retHandle] = false := by decide +kernel
 -- the decrement without the guard that makes the counter positive
 example : fieldPathOk .refDec
     [.fieldAdd "u" (-1), .param 0 "u.node", .handleNode 0 "u", .deref 0 "_decref", .retHandle] = false := by
-  decide
+  decide +kernel
 -- `__dealloc__`: keeps everything only when the counter is known to be 0; a flipped guard is refused
 example : fieldPathOk .handleDealloc
-    [.fieldTest "self" "<" 0 false, .fieldTest "self" "==" 0 true, .retHandle] = true := by decide
+    [.fieldTest "self" "<" 0 false, .fieldTest "self" "==" 0 true, .retHandle] = true := by decide +kernel
 example : fieldPathOk .handleDealloc
-    [.fieldTest "self" "<" 0 false, .fieldTest "self" "!=" 0 true, .retHandle] = false := by decide
+    [.fieldTest "self" "<" 0 false, .fieldTest "self" "!=" 0 true, .retHandle] = false := by decide +kernel
 example : fieldPathOk .handleDealloc
     [.fieldTest "self" "<" 0 false, .fieldTest "self" "!=" 0 false, .fieldAdd "self" (-1),
-     .param 0 "self.node", .handleNode 0 "self", .deref 0 "Cudd_RecursiveDeref", .retHandle] = false := by decide
+     .param 0 "self.node", .handleNode 0 "self", .deref 0 "Cudd_RecursiveDeref", .retHandle] = false := by decide +kernel
 -- `init`: from 0 to exactly what was taken
 example : fieldPathOk .handleInit [.param 0 "node", .fieldSet "self" 1, .ref 0 "Cudd_Ref", .retHandle] = true := by
-  decide
+  decide +kernel
 example : fieldPathOk .handleInit [.param 0 "node", .fieldSet "self" 2, .ref 0 "Cudd_Ref", .retHandle] = false := by
-  decide
-example : fieldPathOk .handleInit [.param 0 "node", .ref 0 "Cudd_Ref", .retHandle] = false := by decide
+  decide +kernel
+example : fieldPathOk .handleInit [.param 0 "node", .ref 0 "Cudd_Ref", .retHandle] = false := by decide +kernel
 -- contradictory conditions: the path is not taken
 example : fieldPathOk .refInc
-    [.fieldTest "u" "<=" 0 false, .fieldTest "u" ">" 0 false, .raise "AssertionError"] = true := by decide
+    [.fieldTest "u" "<=" 0 false, .fieldTest "u" ">" 0 false, .raise "AssertionError"] = true := by decide +kernel
 -- an ordinary method that touches the counter, or calls `incref` on a handle it made (seeded C19g)
-example : runPath [] false false [] [.fieldAdd "f" 1, .retHandle] ≠ .ok := by decide
+example : runPath [] false false [] [.fieldAdd "f" 1, .retHandle] ≠ .ok := by decide +kernel
 example : runPath [] false false []
-    [.produce 0 "Cudd_bddAnd" [], .wrap 0, .ref 0 "incref", .retHandle] ≠ .ok := by decide
+    [.produce 0 "Cudd_bddAnd" [], .wrap 0, .ref 0 "incref", .retHandle] ≠ .ok := by decide +kernel
 example : runPath [] false false []
-    [.produce 0 "Cudd_bddAnd" [], .wrap 0, .deref 0 "decref", .retHandle] ≠ .ok := by decide
+    [.produce 0 "Cudd_bddAnd" [], .wrap 0, .deref 0 "decref", .retHandle] ≠ .ok := by decide +kernel
 
 /-! #### references kept in containers -/
 
@@ -702,121 +744,143 @@ example : runPath ["_compose_root"] true false []
     [.alloc 0 "PyMem_Malloc" "n", .fillBegin 0, .param 1 "g.node", .ref 1 "cuddRef", .store 0 1, .fillEnd 0,
      .param 2 "u.node", .passC 0 "_compose_root", .produce 3 "_compose_root" [2],
      .ref 3 "cuddRef", .derefAll 0 "Cudd_RecursiveDerefZdd" "n", .deref 3 "cuddDeref",
-     .free 0 "PyMem_Free", .wrap 3, .retHandle] = .ok := by decide
+     .free 0 "PyMem_Free", .wrap 3, .retHandle] = .ok := by decide +kernel
 -- seeded C19e: without `cuddRef(r)` … `cuddDeref(r)` the result floats while the vector is released
 -- (balanced, but refused by the floating-node rule: the result may be one of the released nodes)
 example : runPath ["_compose_root"] false false []
     [.alloc 0 "PyMem_Malloc" "n", .fillBegin 0, .param 1 "g.node", .ref 1 "cuddRef", .store 0 1, .fillEnd 0,
      .param 2 "u.node", .passC 0 "_compose_root", .produce 3 "_compose_root" [2],
-     .derefAll 0 "Cudd_RecursiveDerefZdd" "n", .free 0 "PyMem_Free", .wrap 3, .retHandle] = .ok := by decide
+     .derefAll 0 "Cudd_RecursiveDerefZdd" "n", .free 0 "PyMem_Free", .wrap 3, .retHandle] = .ok := by decide +kernel
 example : runPath ["_compose_root"] true false []
     [.alloc 0 "PyMem_Malloc" "n", .fillBegin 0, .param 1 "g.node", .ref 1 "cuddRef", .store 0 1, .fillEnd 0,
      .param 2 "u.node", .passC 0 "_compose_root", .produce 3 "_compose_root" [2],
      .derefAll 0 "Cudd_RecursiveDerefZdd" "n", .free 0 "PyMem_Free", .wrap 3, .retHandle]
-    = .bad "unprotected node used after a node-creating call or a recursive dereference" 3 := by decide
+    = .bad "unprotected node used after a node-creating call or a recursive dereference" 3 := by decide +kernel
 -- a reference stored into a container and never given back
 example : runPath [] false false []
     [.alloc 0 "PyMem_Malloc" "n", .param 1 "g.node", .ref 1 "cuddRef", .store 0 1,
      .free 0 "PyMem_Free", .retHandle]
-    = .bad "path ends while a container of this function still holds references" 0 := by decide
+    = .bad "path ends while a container of this function still holds references" 0 := by decide +kernel
 -- the memo was handed to the recursion and is dropped without releasing what it may hold
 example : runPath ["_compose"] false true []
     [.param 0 "u", .cnew 1 "dict", .passC 1 "_compose", .produce 2 "_compose" [0], .retNode 2] ≠ .ok := by
-  decide
+  decide +kernel
 -- every element is dereferenced although the container only borrows them (no `cuddRef` before the store)
 example : runPath [] false false []
     [.alloc 0 "PyMem_Malloc" "n", .param 1 "g.node", .store 0 1,
-     .derefAll 0 "Cudd_RecursiveDerefZdd" "n", .free 0 "PyMem_Free", .retHandle] ≠ .ok := by decide
+     .derefAll 0 "Cudd_RecursiveDerefZdd" "n", .free 0 "PyMem_Free", .retHandle] ≠ .ok := by decide +kernel
 -- released twice; released over a different bound; used after free; a callee releasing the caller's memo
 example : runPath [] false false []
     [.alloc 0 "PyMem_Malloc" "n", .derefAll 0 "Cudd_RecursiveDerefZdd" "n",
-     .derefAll 0 "Cudd_RecursiveDerefZdd" "n", .free 0 "PyMem_Free", .retHandle] ≠ .ok := by decide
+     .derefAll 0 "Cudd_RecursiveDerefZdd" "n", .free 0 "PyMem_Free", .retHandle] ≠ .ok := by decide +kernel
 example : runPath [] false false []
     [.alloc 0 "PyMem_Malloc" "n", .derefAll 0 "Cudd_RecursiveDerefZdd" "n - 1", .free 0 "PyMem_Free",
-     .retHandle] ≠ .ok := by decide
+     .retHandle] ≠ .ok := by decide +kernel
 example : runPath [] false false []
-    [.alloc 0 "PyMem_Malloc" "n", .free 0 "PyMem_Free", .param 1 "u", .store 0 1, .retHandle] ≠ .ok := by decide
+    [.alloc 0 "PyMem_Malloc" "n", .free 0 "PyMem_Free", .param 1 "u", .store 0 1, .retHandle] ≠ .ok := by decide +kernel
 example : runPath [] false true []
-    [.cparam 0 "table", .derefAll 0 "Cudd_RecursiveDerefZdd" "values", .retNull] ≠ .ok := by decide
+    [.cparam 0 "table", .derefAll 0 "Cudd_RecursiveDerefZdd" "values", .retNull] ≠ .ok := by decide +kernel
 -- an element loaded from a container is gone once the container's references were given back
 example : runPath [] true true []
     [.cparam 0 "hash", .load 1 0, .derefAll 0 "Cudd_RecursiveDerefZdd" "n", .free 0 "FREE", .retNode 1] ≠ .ok := by
-  decide
+  decide +kernel
 -- storing into the caller's memo hands the reference on (the shape of the end of `_compose`)
 example : runPath [] true true []
     [.cparam 0 "table", .produce 1 "cuddZddIte" [], .ref 1 "cuddRef", .ref 1 "cuddRef", .store 0 1,
-     .deref 1 "cuddDeref", .retNode 1] = .ok := by decide
+     .deref 1 "cuddDeref", .retNode 1] = .ok := by decide +kernel
 -- … but not without the second `cuddRef`
 example : runPath [] true true []
     [.cparam 0 "table", .produce 1 "cuddZddIte" [], .ref 1 "cuddRef", .store 0 1,
-     .deref 1 "cuddDeref", .retNode 1] ≠ .ok := by decide
+     .deref 1 "cuddDeref", .retNode 1] ≠ .ok := by decide +kernel
 -- an array that is not freed is reported apart from the references
 example : runPath [] false false [] [.alloc 0 "PyMem_Malloc" "n", .raise "ValueError"] = .arrayLeak 0 := by
-  decide
+  decide +kernel
 -- `x.ref <= 0` is only impossible while a reference on `x` is held
 example : runPath [] false false []
-    [.produce 0 "cuddZddIte" [], .ref 0 "cuddRef", .refNonPos 0, .raise "AssertionError"] = .ok := by decide
+    [.produce 0 "cuddZddIte" [], .ref 0 "cuddRef", .refNonPos 0, .raise "AssertionError"] = .ok := by decide +kernel
 example : runPath [] false false []
     [.produce 0 "cuddZddIte" [], .ref 0 "cuddRef", .deref 0 "cuddDeref", .ref 0 "cuddRef",
-     .deref 0 "cuddDeref", .ref 0 "cuddRef", .raise "AssertionError"] ≠ .ok := by decide
+     .deref 0 "cuddDeref", .ref 0 "cuddRef", .raise "AssertionError"] ≠ .ok := by decide +kernel
 -- a node stored into a field other than the collision chain is not understood
 example : runPath [] false false [] [.param 0 "u", .param 1 "v", .setField 0 "T" 1, .retHandle] ≠ .ok := by
-  decide
+  decide +kernel
 -- the followed functions are there
 example : ((Gen.cRefTraces.filter fun m => m.paths.any fun p => p.events.any CEv.isContEv).length ≥ 7) = true := by
+  decide +kernel
+
+/-! #### the right dereference -/
+
+-- m22 of the second audit: a temporary released with `cuddDeref` and dropped
+example : pathPlainDrop ["_forall"] ⟨.cuddZdd, "_forall", 0, .plain, true, []⟩
+    ⟨[.produce 0 "_forall" [], .ref 0 "cuddRef", .produce 1 "_forall" [], .isNull 1, .deref 0 "cuddDeref",
+      .retNull]⟩ = true := by decide +kernel
+-- … the idiom `cuddRef(r); …; cuddDeref(r); return r` is not
+example : pathPlainDrop ["_find_or_add"] ⟨.cuddZdd, "_forall", 0, .plain, true, []⟩
+    ⟨[.produce 0 "_find_or_add" [], .ref 0 "cuddRef", .deref 0 "cuddDeref", .retNode 0]⟩ = false := by decide +kernel
+-- m05 / m06: `__dealloc__` with `Cudd_Deref`; the BDD function in the ZDD wrapper
+example : derefKindsOk ⟨.cudd, "Function.__dealloc__", 0, .handleDealloc, false,
+    [⟨[.param 0 "self.node", .deref 0 "Cudd_Deref", .retHandle]⟩]⟩ = false := by decide +kernel
+example : derefKindsOk ⟨.cuddZdd, "Function.__dealloc__", 0, .handleDealloc, false,
+    [⟨[.param 0 "self.node", .deref 0 "Cudd_RecursiveDeref", .retHandle]⟩]⟩ = false := by decide +kernel
+-- m38: the result is recursively dereferenced to nothing and then returned
+example : runPath ["_find_or_add"] true true []
+    [.produce 0 "_find_or_add" [], .ref 0 "cuddRef", .deref 0 "Cudd_RecursiveDerefZdd", .retNode 0] ≠ .ok := by
+  decide +kernel
+-- m24: a raw node inside a returned tuple arrives as `retNode` in a function that returns objects
+example : runPath [] false false [] [.param 0 "u.node", .produce 1 "sylvan_low" [0], .retNode 1] ≠ .ok := by
   decide +kernel
 
 /-! #### exceptions from callees, array fills, loop iterations, dropped handles -/
 
 -- seeded C19m: a call that may raise between `Cudd_Ref` and `Cudd_RecursiveDerefZdd`
 example : runPath [] false false []
-    [.produce 0 "Cudd_zddIthVar" [], .ref 0 "Cudd_Ref", .raiseIn "self._add_var#0" 847] ≠ .ok := by decide
+    [.produce 0 "Cudd_zddIthVar" [], .ref 0 "Cudd_Ref", .raiseIn "self._add_var#0" 847] ≠ .ok := by decide +kernel
 example : exitSummary [] ⟨.cuddZdd, "ZDD.add_var", 812, .plain, false, []⟩
     ⟨[.produce 0 "Cudd_zddIthVar" [], .ref 0 "Cudd_Ref", .raiseIn "self._add_var#0" 847]⟩
-    = some [("Cudd_zddIthVar", 1)] := by decide
+    = some [("Cudd_zddIthVar", 1)] := by decide +kernel
 -- the same call after the release, or inside `try … finally: deref`, is fine
 example : runPath [] false false []
     [.produce 0 "Cudd_zddIthVar" [], .ref 0 "Cudd_Ref", .deref 0 "Cudd_RecursiveDerefZdd",
-     .raiseIn "self._add_var#0" 849] = .ok := by decide
+     .raiseIn "self._add_var#0" 849] = .ok := by decide +kernel
 -- the repaired `_c_compose` (F21): an exception in the second iteration of the fill loop; the
 -- `finally` block releases the slots that are not NULL and frees the array
 example : runPath ["_compose_root"] true false []
     [.alloc 0 "PyMem_Malloc" "n", .nullInit 0 "n", .fillBegin 0, .iterBegin, .param 1 "g.node",
      .ref 1 "cuddRef", .store 0 1, .iterEnd, .iterBegin, .derefNonNull 0 "Cudd_RecursiveDerefZdd" "n",
-     .free 0 "PyMem_Free", .raiseIn "typetest#1" 4139] = .ok := by decide
+     .free 0 "PyMem_Free", .raiseIn "typetest#1" 4139] = .ok := by decide +kernel
 -- … before the repair: the loop outside the `try`, nothing releases the array and what it holds
 example : exitSummary [] ⟨.cuddZdd, "_c_compose", 4109, .plain, false, []⟩
     ⟨[.alloc 0 "PyMem_Malloc" "n", .fillBegin 0, .iterBegin, .param 1 "g.node", .ref 1 "cuddRef",
       .store 0 1, .iterEnd, .iterBegin, .raiseIn "typetest#1" 4136]⟩
-    = some [("container array", 0), ("array not freed", 0)] := by decide
+    = some [("container array", 0), ("array not freed", 0)] := by decide +kernel
 -- seeded C19n: the fill loop inside the `try` WITHOUT the initialisation: every slot is read
 example : runPath [] false false []
     [.alloc 0 "PyMem_Malloc" "n", .fillBegin 0, .iterBegin, .derefAll 0 "Cudd_RecursiveDerefZdd" "n",
      .free 0 "PyMem_Free", .raiseIn "getitem#0" 4137]
     = .bad "every slot of an array is dereferenced, but the loop that fills it was not completed (or there is none)" 0 := by
-  decide
+  decide +kernel
 -- the guard alone does not help: the slots that were not written are not NULL
 example : runPath [] false false []
     [.alloc 0 "PyMem_Malloc" "n", .fillBegin 0, .iterBegin, .derefNonNull 0 "Cudd_RecursiveDerefZdd" "n",
-     .free 0 "PyMem_Free", .raiseIn "getitem#0" 4137] ≠ .ok := by decide
+     .free 0 "PyMem_Free", .raiseIn "getitem#0" 4137] ≠ .ok := by decide +kernel
 -- NULL-initialisation over another bound, or after a store
 example : runPath [] false false []
-    [.alloc 0 "PyMem_Malloc" "n", .nullInit 0 "n - 1", .free 0 "PyMem_Free", .retHandle] ≠ .ok := by decide
+    [.alloc 0 "PyMem_Malloc" "n", .nullInit 0 "n - 1", .free 0 "PyMem_Free", .retHandle] ≠ .ok := by decide +kernel
 example : runPath [] false false []
     [.alloc 0 "PyMem_Malloc" "n", .param 1 "g.node", .ref 1 "cuddRef", .store 0 1, .nullInit 0 "n",
-     .free 0 "PyMem_Free", .retHandle] ≠ .ok := by decide
+     .free 0 "PyMem_Free", .retHandle] ≠ .ok := by decide +kernel
 -- an array handed to a C function after the fill was left by `break`
 example : runPath [] false false []
     [.alloc 0 "PyMem_Malloc" "n", .fillBegin 0, .iterBegin, .param 1 "g.node", .store 0 1, .iterBreak,
-     .passC 0 "Cudd_bddVectorCompose", .free 0 "PyMem_Free", .retHandle] ≠ .ok := by decide
+     .passC 0 "Cudd_bddVectorCompose", .free 0 "PyMem_Free", .retHandle] ≠ .ok := by decide +kernel
 -- a loop iteration that keeps a reference (visible at the end of the iteration, whatever follows)
 example : runPath [] false false []
     [.param 0 "u", .iterBegin, .ref 0 "Cudd_Ref", .iterEnd, .deref 0 "Cudd_RecursiveDeref", .retHandle]
     = .bad "a loop iteration ends holding (or having given away) a reference it did not hold when it began" 0 := by
-  decide
+  decide +kernel
 example : runPath [] false false []
     [.param 0 "u", .iterBegin, .ref 0 "Cudd_Ref", .deref 0 "Cudd_RecursiveDeref", .iterEnd, .retHandle] = .ok := by
-  decide
+  decide +kernel
 -- seeded C19o: the handle of `x[0]` is dropped when `f` is rebound; `self.var` is exempt
 example : runPath [] true false []
     [.alloc 0 "PyMem_Malloc" "n", .fillBegin 0, .iterBegin, .param 1 "f.node", .store 0 1, .iterEnd,
@@ -824,11 +888,11 @@ example : runPath [] true false []
      .passC 0 "Cudd_bddComputeCube", .produce 3 "Cudd_bddComputeCube" [], .free 0 "PyMem_Free",
      .wrap 3, .retHandle]
     = .bad "container with an unprotected element handed to Cudd_bddComputeCube after a node-creating call" 0 := by
-  decide
+  decide +kernel
 example : runPath [] true false []
     [.alloc 0 "PyMem_Malloc" "n", .fillBegin 0, .iterBegin, .param 1 "f.node", .store 0 1, .iterEnd,
      .iterBegin, .handleDrop 1 "self.var", .param 2 "f.node", .store 0 2, .iterEnd, .fillEnd 0,
      .passC 0 "Cudd_bddComputeCube", .produce 3 "Cudd_bddComputeCube" [], .free 0 "PyMem_Free",
-     .wrap 3, .retHandle] = .ok := by decide
+     .wrap 3, .retHandle] = .ok := by decide +kernel
 
 end DD
